@@ -135,6 +135,9 @@ def run(ctx):
         stages.cxx_stage(ctx, fl)
         ALLON = "2,1,0,2," + "1" * 31
         lines = ["%s 4 %s" % (ALLON if k_ == "ext" else opts(), (t.encode("latin-1", "replace") or b" ").hex()) for k_, t in texts]
+        # every fourth input once more with every extension / translation switched on, and with all of them off
+        lines += ["%s 4 %s" % (ALLON, (t.encode("latin-1", "replace") or b" ").hex()) for _, t in texts[:: 4]]
+        lines += ["%s 4 %s" % ("1,1,0,2," + "0" * 31, (t.encode("latin-1", "replace") or b" ").hex()) for _, t in texts[1:: 8]]
         if fl == "ndebug":
             # the earlier phases on their own as well (a walk after binding only, after canonicalisation only, …)
             lines += ["%s %d %s" % (opts(), ph, (t.encode("latin-1", "replace") or b" ").hex()) for ph in (1, 2, 3) for _, t in texts[:: 3]]
